@@ -180,13 +180,13 @@ Definition c17_run (input : list Z) : list Z :=
       end
     else if kind =? 4 then
       (* one string through every construction route: parse, FromStr, TryFrom<&str>, TryFrom<String>, try_from_core, TryFrom<CoreDID>,
-         TryFrom<BaseDIDUrl>, serde (= TryFrom<CoreDID> of the deserialised CoreDID), id of a deserialised IotaDocument *)
+         TryFrom<BaseDIDUrl>, serde (= TryFrom<CoreDID> of the deserialised CoreDID), id of a deserialised IotaDocument, controller of a deserialised IotaDocument, controller and id of a document unpacked from state metadata *)
       match take_lp r with
       | Some (bs, []) =>
           let s := bytes_of bs in
           let o (x : outcome (list N) did_err) := match x with Ok v => c17_value_obs v | Err _ => [0] | Panic => [-777] end in
           o (iota_parse s) ++ o (iota_parse s) ++ o (iota_parse s) ++ o (iota_parse s) ++ o (iota_try_from_core s) ++ o (iota_try_from_core s)
-          ++ o (iota_try_from_base s) ++ o (iota_try_from_core s) ++ o (iota_doc_id s)
+          ++ o (iota_try_from_base s) ++ o (iota_try_from_core s) ++ o (iota_doc_id s) ++ o (iota_doc_id s) ++ o (iota_doc_id s) ++ o (iota_doc_id s)
       | _ => ERR_DECODE
       end
     else ERR_DECODE
